@@ -104,17 +104,33 @@ def main():
                 params = set(re.findall(r"\b(\w+)\b", m.group(2) or ""))
                 hit_own = [x for x in (own_re.findall(fields_n) if own_re else []) if x not in params and x != name]
                 rows.append((rel + ":" + name, bool(SHARED.search(fields_n)) or bool(hit_own), fields_n))
+    # process-wide state: every `static` item outside the test modules (thread_local! / lazy_static! / Lazy / OnceCell
+    # statics included: they are written `static NAME: ...` too).  State kept there is shared by ALL subscriptions.
+    statics = []
+    for root, _, files in os.walk(os.path.join(REPO, "src")):
+        for f in sorted(files):
+            if not f.endswith(".rs"):
+                continue
+            path = os.path.join(root, f)
+            rel = os.path.relpath(path, os.path.join(REPO, "src"))
+            src = strip_comments(open(path).read())
+            t = src.find("#[cfg(test)]")
+            body = src if t < 0 else src[:t]
+            for m in re.finditer(r"(?<!')\bstatic\s+(?:ref\s+|mut\s+)?([A-Za-z_]\w*)\s*:", body):
+                statics.append("%s:%s" % (rel, m.group(1)))
+    statics.sort()
     rows.sort()
     text = "(* GENERATED by tools/gen_opstate.py from /repo/src on every run: do not edit. *)\n"
     text += "From Coq Require Import String List.\nImport ListNotations.\nOpen Scope string_scope.\n\n"
     text += "Definition table : list (string * bool) := [\n"
     text += ";\n".join('  ("%s", %s)  (* %s *)' % (k, "true" if b else "false", fl.replace("*)", "* )")[:160]) for k, b, fl in rows)
-    text += "\n].\n"
+    text += "\n].\n\n"
+    text += "Definition statics : list string := [\n" + ";\n".join('  "%s"' % x for x in statics) + "\n].\n"
     if not (os.path.exists(OUT) and open(OUT).read() == text):
         os.makedirs(os.path.dirname(OUT), exist_ok=True)
         with open(OUT, "w") as f:
             f.write(text)
-    print("observable structs: %d; with a shared cell: %s" % (len(rows), [k for k, b, _ in rows if b]))
+    print("observable structs: %d; with a shared cell: %s; statics: %s" % (len(rows), [k for k, b, _ in rows if b], statics))
 
 
 main()
